@@ -379,6 +379,8 @@ func (k *checker) faulty() {
 			bytes.HasSuffix(fi.before, []byte("\n")) && !bytes.Contains(fi.before, []byte("\n\n")) && bytes.Contains(fi.before, []byte("upload-time: ")) &&
 			vcase.KnownListed("C20-a") {
 			v.KnownHit("C20-a")
+			v.Label("fs:known_C20-a")
+			k.stop = true
 			return
 		}
 		v.Failf("upload with fault %s was answered %d %s: the fault must fail the upload", describe(f), status, strings.TrimSpace(string(resp)))
